@@ -67,7 +67,16 @@ func init() {
 					}
 					n++
 					recovers := false
-					walkFuncTree(rootFunc(fn), func(f *ssa.Function) {
+					// the recover has to run in the goroutine of the call: in the function itself or in a function
+					// that encloses it — up to, and not beyond, a closure that is started with `go`
+					var chain []*ssa.Function
+					for cur := fn; cur != nil; cur = cur.Parent() {
+						chain = append(chain, cur)
+						if startedWithGo(cur) {
+							break
+						}
+					}
+					for _, f := range chain {
 						eachInstr(f, func(in ssa.Instruction) {
 							d, ok := in.(*ssa.Defer)
 							if !ok {
@@ -91,7 +100,7 @@ func init() {
 								}
 							})
 						})
-					})
+					}
 					c.check(recovers, fmt.Sprintf("%s: %s#%d runs under a deferred recover", shortName(fn), name, n), p.instrPos(site), "defer func() { recover() … }()", "user code is called through reflect without a recover in this function: a panic inside a registered function escapes the render call (no render path recovers) and takes the process down")
 				}
 			}
@@ -193,34 +202,22 @@ func init() {
 				if callee == nil || !inModule(callee) || !cone[callee] {
 					continue
 				}
-				eachInstr(callee, func(in ssa.Instruction) {
-					if cs, ok := in.(ssa.CallInstruction); ok {
-						if b, ok := cs.Common().Value.(*ssa.Builtin); ok && b.Name() == "delete" {
-							if f := loadedField(cs.Common().Args[0]); f != nil && fieldIs(f, "templateCache") {
-								// the helper evicts whatever is there: the delete lies on every path through it
-								// (a compare-and-delete leaves the previous revision's entry in place)
-								uncond := true
-								for _, r := range returnsOf(callee) {
-									if !mustPassBefore(callee, r, map[ssa.Instruction]bool{in: true}) {
-										uncond = false
-									}
-								}
-								if uncond {
-									deletes[site] = true
-								}
-							}
-						}
-					}
-				})
+				if evictsAlways(callee, 0) {
+					deletes[site] = true
+				}
 			}
 			n := 0
 			for _, r := range returnsOf(fn) {
-				if len(r.Results) == 0 || isNilConst(r.Results[len(r.Results)-1]) {
+				if len(r.Results) == 0 || allNilConst(r.Results[len(r.Results)-1]) {
 					continue
 				}
 				// an error that comes from the loader or the parser: one obligation per failing step
 				var steps []string
-				for _, o := range p.origins(r.Results[len(r.Results)-1], OriginOpts{}) {
+				var errOrigins []ssa.Value
+				for _, rv := range throughCallee(r.Results[len(r.Results)-1]) {
+					errOrigins = append(errOrigins, p.origins(rv, OriginOpts{})...)
+				}
+				for _, o := range errOrigins {
 					if ex, ok := o.(*ssa.Extract); ok {
 						if cl, ok := ex.Tuple.(*ssa.Call); ok {
 							nm := calleeName(&cl.Call)
@@ -282,14 +279,17 @@ func init() {
 				if pk == nil {
 					return false
 				}
+				// (the name the function had in the pinned tree: a renamed function keeps its role)
+				role := shortName(rootFunc(fn))
+				role = role[strings.LastIndex(role, ".")+1:]
 				if strings.HasSuffix(pk.Path(), "/formatter") {
 					// the layout of raw text (script / style) works on whole lines of source code, not on document text
-					return rootFunc(fn).Name() != "trimRawContent"
+					return role != "trimRawContent"
 				}
 				if pk.Path() != modPath {
 					return false
 				}
-				switch rootFunc(fn).Name() {
+				switch role {
 				case "renderNodeWithContext", "renderNode", "render", "extractSlotContent", "extractSlotsFromDOM", "evaluateSlotNodes", "evaluate", "evaluateChildren":
 					return true
 				}
@@ -512,6 +512,44 @@ func init() {
 				}
 				n++
 				c.ok(fmt.Sprintf("evalInclude: return#%d evaluates the whole component file", n), p.instrPos(r), "evaluate(dom) or evaluate(dom[1:]) on every path")
+			}
+			if n == 0 {
+				// one merged return whose error is a φ of nil and of the errors made on the failing ways (the tail of the
+				// function extracted into a helper and inlined here): decide per incoming edge of that φ
+				via := map[ssa.Instruction]bool{}
+				for k := range whole {
+					via[k] = true
+				}
+				for k := range rest {
+					via[k] = true
+				}
+				for _, r := range returnsOf(fn) {
+					if len(r.Results) < 2 {
+						continue
+					}
+					ph, ok := returnedValue(r, 1).(*ssa.Phi)
+					if !ok {
+						continue
+					}
+					for i, e := range ph.Edges {
+						okEdge := isNilConst(e)
+						if ex, isEx := e.(*ssa.Extract); isEx {
+							if cl, isCl := ex.Tuple.(*ssa.Call); isCl && calleeName(&cl.Call) == "(*vuego.Vue).evaluate" {
+								okEdge = true
+							}
+						}
+						if !okEdge {
+							continue
+						}
+						pred := ph.Block().Preds[i]
+						last := pred.Instrs[len(pred.Instrs)-1]
+						if !canFollowValue(dom, last) {
+							continue
+						}
+						n++
+						c.check(len(via) > 0 && mustPassBefore(fn, last, via), fmt.Sprintf("evalInclude: return#%d evaluates the whole component file", n), p.instrPos(last), "evaluate(dom) or evaluate(dom[1:]) on every path", "a path returns the component's result without having handed all top-level nodes of the file to the evaluator: what follows the root <template> (a <style>, a <script>) is never emitted")
+					}
+				}
 			}
 			if n == 0 {
 				undecided("evalInclude has no successful return after parsing")
@@ -972,7 +1010,7 @@ func init() {
 					return false
 				}
 				path := pk.Path()
-				return strings.HasSuffix(path, "/internal/parser") || strings.HasSuffix(path, "/formatter") || strings.HasSuffix(path, "/diff") || (strings.HasSuffix(path, "/internal/helpers") && rootFunc(fn).Name() == "GetBodyNode")
+				return strings.HasSuffix(path, "/internal/parser") || strings.HasSuffix(path, "/formatter") || strings.HasSuffix(path, "/diff") || (strings.HasSuffix(path, "/internal/helpers") && (rootFunc(fn).Name() == "GetBodyNode" || parsesConstant(p, fn)))
 			}
 			n := 0
 			for _, fn := range p.Funcs {
@@ -996,7 +1034,7 @@ func init() {
 		Doc: "a layout name means the same file with and without its extension: where resolveLayoutPath appends `.vuego` to the name for the layouts/ fallback, the name has been stripped of that extension first (TrimSuffix / CutSuffix) or is known not to carry it — `layout: main.vuego` must not be looked up as layouts/main.vuego.vuego",
 		Run: func(p *Prog, c *Ctx) {
 			fn := p.MustFn("(*vuego.template).resolveLayoutPath")
-			name := fn.Params[1]
+			name := paramOf(fn, "layout", 1, 3)
 			n := 0
 			for _, r := range returnsOf(fn) {
 				v := r.Results[0]
@@ -1289,7 +1327,7 @@ func init() {
 
 func init() {
 	register(&Rule{
-		ID: "C17.R10", Props: []string{"C17", "C03", "C11", "C08", "C09", "C10", "C05"}, Min: 1, // C09/C10: Copy() is built on EnvMap — a shared map is shared between requests
+		ID: "C17.R10", Props: []string{"C17", "C03", "C11", "C08", "C09", "C10", "C05", "C13", "C06"}, Min: 1, // C09/C10: Copy() is built on EnvMap — a shared map is shared between requests
 		Doc: "the merged environment holds every binding, whatever its value: in Stack.EnvMap the copy of a scope's entries into the result is decided by the iteration alone — no condition on the value (nil, zero, type) stands before the store. A binding that is left out no longer shadows an outer one: v-if / v-show / :class (which read the environment) then see the outer value while {{ }} and bound attributes (which use Lookup) see the inner one, and the nil that hides inherited slot content from itself stops hiding it",
 		Run: func(p *Prog, c *Ctx) {
 			fn := p.MustFn("(*vuego.Stack).EnvMap")
@@ -1444,7 +1482,7 @@ func init() {
 		Doc: "fallback content belongs to the component: in the slot evaluator the <slot>'s own children are evaluated with the context's slot scope as it was on entry — no assignment to ctx.SlotScope can run before the fallback evaluation. Switching to the outer scope there (as is right for *supplied* content, which the user of the component wrote) makes a <slot> nested in the fallback look in the wrong instance: supplied #title is lost, or a foreign instance's content appears",
 		Run: func(p *Prog, c *Ctx) {
 			fn := p.MustFn("(*vuego.Vue).evalSlot")
-			node := fn.Params[2]
+			node := paramOf(fn, "node", 2, 4)
 			var fallback []ssa.Instruction
 			for _, site := range callsIn(fn) {
 				cc := site.Common()
@@ -1845,7 +1883,7 @@ func init() {
 				n++
 				name := site.Common().Args[0]
 				ok, why := false, describeValue(name)
-				for _, o := range p.origins(name, OriginOpts{}) {
+				for _, o := range p.originsThroughCallers(name, OriginOpts{}, 3) {
 					if cl := isCallNamed(o, "helpers.GetAttr"); cl != nil {
 						if k, isK := constString(cl.Call.Args[1]); isK && k == "include" {
 							ok = true
@@ -1912,7 +1950,7 @@ func init() {
 
 func init() {
 	register(&Rule{
-		ID: "C17.R11", Props: []string{"C17", "C08", "C11", "C02"}, Min: 1, // C02: an acyclic value met twice must print as fmt prints it
+		ID: "C17.R11", Props: []string{"C17", "C08", "C11", "C02", "C03"}, Min: 1, // C02: an acyclic value met twice must print as fmt prints it
 		Doc: "the cycle guard of a data walk records the current path, not everything ever seen: wherever a recursive conversion of caller data marks a pointer in a `visiting` set that is threaded through the recursion (a map parameter), the same key is removed again when that level is left (a deferred or explicit delete after the insert). Without the removal, data that merely mentions one struct twice — root.Author == root.Editor — is taken for a cycle, and the second occurrence converts to an empty map: its fields render as nothing",
 		Run: func(p *Prog, c *Ctx) {
 			n := 0
@@ -2622,7 +2660,8 @@ func init() {
 						var dyn ssa.Value = op
 						if ok {
 							// a concrete value boxed for the call: only composite types that can hold themselves matter
-							if !canHoldItself(mi.X.Type(), 0) {
+							// (a reflect.Value is printed as the value it holds: whatever the caller's data is)
+							if !canHoldItself(mi.X.Type(), 0) && !isNamed(mi.X.Type(), "reflect", "Value") {
 								continue
 							}
 							dyn = mi.X
@@ -3087,4 +3126,98 @@ func init() {
 			}
 		},
 	})
+}
+
+// parsesConstant: every html.Parse / ParseFragment call in fn reads from a reader over a constant string (the
+// wrapper document of the cached <body> element, wherever its initialiser lives: a sync.Once callback, a
+// sync.OnceValue closure of the package initialiser): not template source.
+func parsesConstant(p *Prog, fn *ssa.Function) bool {
+	n, ok := 0, true
+	for _, site := range callsIn(fn) {
+		nm := calleeName(site.Common())
+		if !strings.Contains(nm, "net/html.Parse") {
+			continue
+		}
+		n++
+		isConst := false
+		for _, o := range append(p.origins(site.Common().Args[0], OriginOpts{}), site.Common().Args[0]) {
+			if mi, isMI := o.(*ssa.MakeInterface); isMI {
+				o = mi.X
+			}
+			if cl, isCall := o.(*ssa.Call); isCall && (calleeName(&cl.Call) == "strings.NewReader" || calleeName(&cl.Call) == "bytes.NewReader" || calleeName(&cl.Call) == "bytes.NewBufferString") {
+				v := cl.Call.Args[0]
+				if cv, isConv := v.(*ssa.Convert); isConv {
+					v = cv.X
+				}
+				if _, isK := constString(v); isK {
+					isConst = true
+				}
+			}
+		}
+		if !isConst {
+			ok = false
+		}
+	}
+	return n > 0 && ok
+}
+
+// startedWithGo: the closure is the operand of a `go` statement of its parent (it runs in a goroutine of its own:
+// a deferred recover of the parent does not cover it).
+func startedWithGo(f *ssa.Function) bool {
+	par := f.Parent()
+	if par == nil {
+		return false
+	}
+	found := false
+	eachInstr(par, func(in ssa.Instruction) {
+		g, ok := in.(*ssa.Go)
+		if !ok {
+			return
+		}
+		switch v := g.Call.Value.(type) {
+		case *ssa.MakeClosure:
+			if v.Fn == ssa.Value(f) {
+				found = true
+			}
+		case *ssa.Function:
+			if v == f {
+				found = true
+			}
+		}
+	})
+	return found
+}
+
+// evictsAlways: every way through the function deletes from the template cache — directly, or by calling (on every
+// way) a module function that does (a local `failed(err)` closure that calls forgetTemplate). A compare-and-delete
+// leaves the previous revision's entry in place and does not count.
+func evictsAlways(fn *ssa.Function, depth int) bool {
+	if depth > 3 || len(fn.Blocks) == 0 {
+		return false
+	}
+	via := map[ssa.Instruction]bool{}
+	eachInstr(fn, func(in ssa.Instruction) {
+		cs, ok := in.(ssa.CallInstruction)
+		if !ok {
+			return
+		}
+		if b, ok := cs.Common().Value.(*ssa.Builtin); ok && b.Name() == "delete" {
+			if f := loadedField(cs.Common().Args[0]); f != nil && fieldIs(f, "templateCache") {
+				via[in] = true
+			}
+			return
+		}
+		if callee := cs.Common().StaticCallee(); callee != nil && inModule(callee) && callee != fn && evictsAlways(callee, depth+1) {
+			via[in] = true
+		}
+	})
+	if len(via) == 0 {
+		return false
+	}
+	for _, r := range returnsOf(fn) {
+		if !mustPassBefore(fn, r, via) {
+			return false
+		}
+	}
+	return true
 }
